@@ -126,6 +126,11 @@ pub fn drive<F: Future>(
     let mut polls = 0u32;
     loop {
         polls += 1;
+        {
+            // the clock the code under test would read shows the world's time
+            let g = w.lock().unwrap();
+            crate::clock::set_now_ns(g.now.saturating_mul(g.cfg.tick_len_ns()));
+        }
         let r = catch_unwind(AssertUnwindSafe(|| fut.as_mut().poll(&mut cx)));
         match r {
             Err(_) => {
